@@ -584,8 +584,53 @@ fn run_tdopt(d: &str, secs: i64) -> String {
     }
 }
 
+/// relational run, the signed zero (the value grids carry one zero: the exact model has no sign for
+/// it): `0.0, -0.0, 0.0, -0.0` cast one after the other to `d` must each equal the language's own
+/// conversion of that value (`as`, `to_string`, `Some` of it) — the sign of a zero survives a float
+/// or text target, and an answer does not depend on the value converted just before.
+/// `OK` | `NE:<position>:<got>!=<expected>/…`
+fn run_negz(s: &str, d: &str) -> String {
+    macro_rules! go { ($S:ty, $T:ty, $oracle:expr) => {{
+        let seq: [$S; 4] = [0.0, -0.0, 0.0, -0.0];
+        let mut bad: Vec<String> = vec![];
+        for (i, v) in seq.iter().enumerate() {
+            let got = catch(|| Cast::<$T>::cast(*v));
+            let want: $T = ($oracle)(*v);
+            match got {
+                Some(g) => if format!("{:?}", g) != format!("{:?}", want) { bad.push(format!("{}:{:?}!={:?}", i, g, want)) },
+                None => bad.push(format!("{}:P", i)),
+            }
+        }
+        if bad.is_empty() { "OK".to_string() } else { format!("NE:{}", bad.join("/")).replace(' ', "").replace(',', ".").replace(';', ".") }
+    }} }
+    macro_rules! src { ($S:ty) => {
+        match d {
+            "str" => go!($S, String, |v: $S| v.to_string()),
+            "f64" => go!($S, f64, |v: $S| v as f64),
+            "f32" => go!($S, f32, |v: $S| v as f32),
+            "of64" => go!($S, Option<f64>, |v: $S| Some(v as f64)),
+            "of32" => go!($S, Option<f32>, |v: $S| Some(v as f32)),
+            "i64" => go!($S, i64, |v: $S| v as i64),
+            "i32" => go!($S, i32, |v: $S| v as i32),
+            "u8" => go!($S, u8, |v: $S| v as u8),
+            "u64" => go!($S, u64, |v: $S| v as u64),
+            "usize" => go!($S, usize, |v: $S| v as usize),
+            "isize" => go!($S, isize, |v: $S| v as isize),
+            "oi64" => go!($S, Option<i64>, |v: $S| Some(v as i64)),
+            "oi32" => go!($S, Option<i32>, |v: $S| Some(v as i32)),
+            _ => "?badcase".into(),
+        }
+    } }
+    match s {
+        "f64" => src!(f64),
+        "f32" => src!(f32),
+        _ => "?badcase".into(),
+    }
+}
+
 pub fn run(r: &Req) -> Option<String> {
     match r.f.as_str() {
+        "c15_negz" => Some(run_negz(r.s("s"), r.s("d"))),
         "c15_tdopt" => Some(run_tdopt(r.s("d"), r.i64("secs"))),
         "c15_null" => Some(run_null(r.s("ty"), r.s("v")).unwrap_or_else(|| "?badcase".into())),
         "c15_cast" => Some(run_cast(r.s("s"), r.s("d"), r.s("v")).unwrap_or_else(|| "?badcase".into())),
@@ -829,6 +874,7 @@ fn ord_grid(ty: &str, big: bool) -> Vec<String> {
 
 pub fn valid_case(r: &Req) -> bool {
     match r.f.as_str() {
+        "c15_negz" => matches!(r.s("s"), "f64" | "f32"),
         "c15_tdopt" => ["i64", "f64", "f32", "i32", "u8", "u64", "usize", "isize", "bool"].contains(&r.s("d")) && r.s("secs").parse::<i64>().is_ok(),
         "c15_null" => valid_tok(r.s("ty"), r.s("v")),
         "c15_ord" => valid_tok(r.s("ty"), r.s("p")) && valid_tok(r.s("ty"), r.s("q")) && valid_tok(r.s("ty"), r.s("r")),
@@ -882,6 +928,41 @@ pub fn generate(tier: &str, rng: &mut Rng) -> (Vec<String>, bool) {
             }
         }
     }
+    // 2a. ordered pairs of confusable values, one request straight after the other (the casts are
+    //     pure: an answer must not depend on the value converted just before — `0 == -0`, `1 == 1.0`,
+    //     the null and the zero, the two infinities, the first and last grid values)
+    for (s, d) in cast_pairs() {
+        let g = grid(&s, false);
+        let mut sel: Vec<String> = vec![];
+        for t in ["0", "-0p0", "1", "-1", "nan", "_", "inf", "true", "false"] {
+            if g.iter().any(|x| x == t) {
+                sel.push(t.to_string());
+            }
+        }
+        for x in g.iter().take(2).chain(g.iter().rev().take(2)) {
+            if !sel.contains(x) {
+                sel.push(x.clone());
+            }
+        }
+        for a in &sel {
+            for b in &sel {
+                if a == b {
+                    continue;
+                }
+                let (la, lb) = (format!("c15_cast s={} d={} v={}", s, d, a), format!("c15_cast s={} d={} v={}", s, d, b));
+                if valid_case(&Req::parse(&la)) && valid_case(&Req::parse(&lb)) {
+                    out.push(la);
+                    out.push(lb);
+                }
+            }
+        }
+    }
+    // 2a'. the signed zero through every numeric / text target
+    for s in ["f64", "f32"] {
+        for d in ["str", "f64", "f32", "of64", "of32", "i64", "i32", "u8", "u64", "usize", "isize", "oi64", "oi32"] {
+            out.push(format!("c15_negz s={} d={}", s, d));
+        }
+    }
     // 2b. durations beyond the nanosecond tokens (±292 years … ±292 thousand years and further): the
     //     cast to `Option<T>` is `Some` of the cast to `T`
     for d in ["i64", "f64", "f32", "i32", "u8", "u64", "usize", "isize", "bool"] {
@@ -927,7 +1008,7 @@ pub fn generate(tier: &str, rng: &mut Rng) -> (Vec<String>, bool) {
 
 pub fn rule(tier: &str) -> String {
     let big = tier == "thorough";
-    format!("exhaustive tables: (1) all IsNone observers (is_none, not_none, to_opt, as_opt, from_opt, from_inner.unwrap, none, map into Self / Option<Inner> / Inner, vabs, into_cast) for {} types x their value grid; (2) Cast::cast for all {} (source,target) pairs = every pair extracted from the impl_numeric_cast! invocations x 4 Option arms, identity/blanket/main arms, bool, String, &str, DateTime<ns>, TimeDelta, Time arms, impl_time_cast!, impl_cast_from_string! x the source grid {{0, +-1, 2, 127, 128, 255, 256, 2^24+1, +-2^31, 2^32(+1), +-2^53(+1), 2^63, 2^64-1, type MIN/MAX, f32/f64 MAX, rounding ties, subnormals, NaN, +-inf, None}}{} compared with the language's own `as` / to_string / parse lifted by the null rule; (3) all triples of a {}-value order grid (incl. the null) for {} types: sort_cmp, sort_cmp_rev on all 9 pairs + slice::sort_by with either comparator; then {} random (pair, value) casts through the numeric lattice. non-trivial = output has a non-null token.",
+    format!("exhaustive tables: (1) all IsNone observers (is_none, not_none, to_opt, as_opt, from_opt, from_inner.unwrap, none, map into Self / Option<Inner> / Inner, vabs, into_cast) for {} types x their value grid; (2) Cast::cast for all {} (source,target) pairs = every pair extracted from the impl_numeric_cast! invocations x 4 Option arms, identity/blanket/main arms, bool, String, &str, DateTime<ns>, TimeDelta, Time arms, impl_time_cast!, impl_cast_from_string! x the source grid {{0, +-1, 2, 127, 128, 255, 256, 2^24+1, +-2^31, 2^32(+1), +-2^53(+1), 2^63, 2^64-1, type MIN/MAX, f32/f64 MAX, rounding ties, subnormals, NaN, +-inf, None}}{} compared with the language's own `as` / to_string / parse lifted by the null rule; (2a) for every cast pair every ordered pair of up to 11 confusable source values (0, -0, +-1, NaN, null, inf, true / false, the first and last two grid values) as two consecutive requests (an answer must not depend on the value converted just before); (2a') relational run c15_negz: 0.0, -0.0, 0.0, -0.0 (f32 and f64) cast in sequence to 13 numeric / text targets, each compared with the language's own conversion (the exact model has one zero); (3) all triples of a {}-value order grid (incl. the null) for {} types: sort_cmp, sort_cmp_rev on all 9 pairs + slice::sort_by with either comparator; then {} random (pair, value) casts through the numeric lattice. non-trivial = output has a non-null token.",
         NULL_TYPES.len(), cast_pairs().len(), if big { " (extended)" } else { "" }, if big { "6..9" } else { "6..8" }, ORD_TYPES.len(), if big { 300000 } else { 20000 })
 }
 
